@@ -3,7 +3,7 @@
   serialises — for every enumeration `order` of the inherited prefixes.
 -/
 import XotModel.Lemmas.FclonePrefix7
-import XotModel.Lemmas.FcloneStrict
+import XotModel.Lemmas.FcloneMergeInv
 
 namespace XotModel
 open HTree
@@ -27,7 +27,6 @@ theorem cloning_after_clone (f : Forest) (inv : f.Inv) (C : HTree) (f' : Forest)
 
 /-- `clone_with_prefixes` of an element whose root serialises gives a clone that serialises. -/
 theorem cloneWithPrefixes_serialises (env : Env) (f : Forest) (inv : f.Inv)
-    (hstrict : f.everOff = false ∨ f.consolidation = false)
     (node : Nat) (hs : Nat) (name : Nat) (Ks : List HTree) (rest : List HTree)
     (hpath : f.pathTo node = .node hs (.element name) Ks :: rest)
     (hser : ∀ r ∈ f.roots, HTree.pathTo node r = some (.node hs (.element name) Ks :: rest) →
@@ -44,20 +43,16 @@ theorem cloneWithPrefixes_serialises (env : Env) (f : Forest) (inv : f.Inv)
   -- clone_node
   obtain ⟨C, f1, h1, h2, h3, h4, h5, h6, h7, h8, h9, h10⟩ :=
     cloneNode_full f inv node _ hget
-  have hCe : erase C = erase (.node hs (.element name) Ks) := by
-    rw [h6]
-    rcases hstrict with h | h
-    · have hv := inv.valid_get hget
-      rw [h] at hv
-      exact expectedClone_strict _ _ hv
-    · rw [h]; rfl
+  obtain ⟨L, hL, hE1, hE2, hE3⟩ := expectedClone_serial env _ f.consolidation hs (.element name) Ks
+    (inv.valid_get hget)
+  rw [hL] at h6
   obtain ⟨c, vC, Kc⟩ := C
   have hvC : vC = .element name := by
-    have := congrArg Tree.value hCe
+    have := congrArg Tree.value h6
     simpa [erase, Tree.value] using this
   subst hvC
-  have hKe : eraseList Kc = eraseList Ks := by
-    have := congrArg Tree.kids hCe
+  have hKe : eraseList Kc = L := by
+    have := congrArg Tree.kids h6
     simpa [erase, Tree.kids] using this
   have cl := cloning_after_clone f inv _ f1 h2 h4 h5 h10 c (.element name) Kc rfl
   -- the insertion loop
@@ -99,7 +94,8 @@ theorem cloneWithPrefixes_serialises (env : Env) (f : Forest) (inv : f.Inv)
   -- declarations of the source = declarations of the clone before the loop
   have hdsrc : declsOfKids Ks = A.filterMap (fun k => nsPair k.value) := by
     rw [← declsOfKids_split A B hA hB, ← nsDecls_erase c (.element name), ← nsDecls_erase hs (.element name)]
-    simp only [erase, hKe]
+    simp only [erase]
+    rw [hKe, hE1]
   -- in place: the serializer reaches the source
   obtain ⟨sS, hwS, htS⟩ := writable_descend env node r _ _ rest (hser r hr hp) hp
   simp only [erase, writableTree, Bool.and_eq_true, List.all_eq_true] at hwS
@@ -113,8 +109,11 @@ theorem cloneWithPrefixes_serialises (env : Env) (f : Forest) (inv : f.Inv)
   rw [hdC]
   have hattrs : (Tree.node (.element name) (eraseList (A ++ New ++ B))).attrs =
       (Tree.node (.element name) (eraseList Ks)).attrs := by
-    rw [attrs_eq, attrs_eq, attributeNodes_insert _ A New B hA hNew, hKe]
-  rw [hattrs, writableList_insert env _ A New B hNew, hKe]
+    have e1 : (Tree.node (Value.element name) (eraseList (A ++ New ++ B))).attrs =
+        (Tree.node (Value.element name) (eraseList (A ++ B))).attrs := by
+      rw [attrs_eq, attrs_eq, attributeNodes_insert _ A New B hA hNew]
+    rw [e1, hKe, hE2]
+  rw [hattrs, writableList_insert env _ A New B hNew, hKe, hE3]
   -- the three stacks after the start tag of the source / the clone
   generalize hL0 : namespacesInScopeChain [Tree.node (Value.element name) (eraseList (A ++ New ++ B))] = L0
   let U : Nat → Prop := fun n => n ∈ unresolvedTree env (FStack.new []) (erase (.node hs (.element name) Ks))
